@@ -82,6 +82,19 @@ AsRead(d) == [recs |-> ContentSeq(d.recs),
               bundles |-> [i \in 1..Len(d.bundles) |-> [id |-> d.bundles[i].id, recs |-> ContentSeq(d.bundles[i].recs)]]]
 KF_rt(step) == IF step.exc = "none" /\ ShadowExplains(step.src, AsRead(step.back)) THEN "KF-C03-shadow" ELSE ""
 
+(* KF-C06-noid: PROV-N has no syntax for an identifier or attributes on alternateOf,  *)
+(* specializationOf, hadMember and mentionOf; the library prints them anyway          *)
+(* ("hadMember(ex:r; c, e, [..])"), which is outside the grammar.                      *)
+NoIdNames == {"alternateOf", "specializationOf", "hadMember", "mentionOf"}
+OnlyNoIdProblem(e) ==
+  \/ WfExpr(e)
+  \/ (e.name \in NoIdNames /\ (e.hasid \/ e.hasattrs) /\ WfExpr([e EXCEPT !.hasid = FALSE, !.hasattrs = FALSE]))
+KF_C06_grammar(step) ==
+  IF /\ \A i \in 1..Len(step.ast.exprs) : OnlyNoIdProblem(step.ast.exprs[i])
+     /\ \A b \in 1..Len(step.ast.bundles) : \A i \in 1..Len(step.ast.bundles[b].exprs) :
+           OnlyNoIdProblem(step.ast.bundles[b].exprs[i])
+  THEN "KF-C06-noid" ELSE ""
+
 KnownFinding(step, c) ==
   CASE c = "C03c" -> KF_C03c(step)
     [] c = "C05_refuse" -> KF_C05_refuse(step)
@@ -90,6 +103,8 @@ KnownFinding(step, c) ==
     [] c = "C01_rt"     -> KF_rt(step)
     [] c = "C02_rt"     -> KF_rt(step)
     [] c = "C10_read_xml" -> IF ShadowExplains(step.src, SpecReadXML(step.ast)) THEN "KF-C03-shadow" ELSE ""
+    [] c = "C06_grammar" -> KF_C06_grammar(step)
+    [] c = "C06_denotes" -> IF ShadowExplains(step.src, SpecReadProvN(step.ast)) THEN "KF-C03-shadow" ELSE ""
     [] c = "C10_read_json" -> IF ShadowExplains(step.src, SpecReadJSON(step.ast)) THEN "KF-C03-shadow" ELSE ""
     [] OTHER -> ""
 
